@@ -585,7 +585,9 @@ Lemma setAndExpand_eq : forall d,
     let '(huff, cl, ex, nc, pan2) := expandLenCodes huff cl ex nc lenHuff in
     (mkDyn huff (clcShort d) (clcLong d) cl lc (distCount d) ex nc lenHuff,
      if pan1 || pan2 then EPanic else ENone).
-Proof. intros d. reflexivity. Qed.
+Proof.
+  intros d. unfold setAndExpandLitLenHuffCode, ps_loop1, ps_loop2. cbv zeta. reflexivity.
+Qed.
 
 Lemma mod16_u32 : forall x, u32 x mod 65536 = x mod 65536.
 Proof. intros x. rewrite <- !u16_mod. apply u16_u32. Qed.
@@ -661,3 +663,185 @@ Section Prefix.
       + intros j Hj. rewrite aget_aset_other by lia. apply Hhi. lia.
   Qed.
 End Prefix.
+
+(* ---------------------------------------------------------------- the number of expanded codes
+   per expanded length, against count_len / ex_dec / ex_inc of EngineSafetyInv *)
+Definition Ecnt (h lh : arr) (L : N) : N := count_len h 0 257 L + cntB lh 29 L.
+
+Section Ecount.
+  Variables h lh : arr.
+  Hypothesis Hlh : forall i, i < 29 -> aget lh i = aget h (257 + i).
+
+  Lemma cntB_low : forall L m, 1 <= L -> (m <= 7)%nat -> cntB lh m L = count_len h 257 m L.
+  Proof.
+    intros L m HL. induction m as [|k IH]; intros Hm; [reflexivity|].
+    cbn [cntB count_len]. rewrite IH by lia. f_equal.
+    unfold xitem, xw. rewrite (len_extra_low (N.of_nat k)) by lia.
+    rewrite (Hlh (N.of_nat k)) by lia. rewrite N.add_0_r.
+    change (N.shiftl 1 0) with 1.
+    destruct (N.eqb_spec (hc_len (aget h (257 + N.of_nat k))) L) as [Heq|Hne].
+    - destruct (N.eqb_spec (hc_len (aget h (257 + N.of_nat k))) 0); [lia|reflexivity].
+    - rewrite andb_false_r. reflexivity.
+  Qed.
+
+  Lemma cntB_high : forall L m, (m <= 22)%nat -> cntB lh (7 + m) L = cntB lh 7 L + ex_inc h m L.
+  Proof.
+    intros L m. induction m as [|k IH]; intros Hm.
+    - rewrite Nat.add_0_r. cbn [ex_inc]. lia.
+    - rewrite Nat.add_succ_r. cbn [cntB ex_inc]. rewrite IH by lia.
+      rewrite <- N.add_assoc. f_equal. f_equal.
+      unfold xitem, len_extra. rewrite (Hlh (N.of_nat (7 + k))) by lia.
+      replace (257 + N.of_nat (7 + k)) with (264 + N.of_nat k) by lia.
+      replace (264 + N.of_nat k - 257) with (N.of_nat (7 + k)) by lia.
+      destruct (len_extra_facts (N.of_nat (7 + k))) as (_ & _ & Hp); [lia|].
+      rewrite Hp. reflexivity.
+  Qed.
+
+  Lemma Ecnt_alt : forall L, 1 <= L -> Ecnt h lh L = count_len h 0 264 L + ex_inc h 22 L.
+  Proof.
+    intros L HL. unfold Ecnt.
+    pose proof (count_len_split h L 257 7) as H1.
+    change (257 + 7)%nat with 264%nat in H1. change (N.of_nat 257) with 257 in H1.
+    pose proof (cntB_high L 22 (le_n _)) as H2. change (7 + 22)%nat with 29%nat in H2.
+    pose proof (cntB_low L 7 HL (le_n _)) as H3. lia.
+  Qed.
+
+  Lemma Ecnt_sum : Soff (Ecnt h lh) 22 <= 514.
+  Proof.
+    unfold Soff. change (N.to_nat (22 - 1)) with 21%nat. unfold Ecnt.
+    rewrite psum_add.
+    pose proof (psum_count_len h 0 257 21) as H1.
+    pose proof (psum_cntB lh 29 21) as H2. rewrite xsum_29 in H2.
+    change (psum (fun l => count_len h 0 257 l) 21) with (psum (count_len h 0 257) 21) in H1.
+    change (psum (fun j => count_len h 0 257 j) 21) with (psum (count_len h 0 257) 21).
+    change (psum (fun j => cntB lh 29 j) 21) with (psum (cntB lh 29) 21).
+    lia.
+  Qed.
+End Ecount.
+
+Lemma count_ex_dec : forall h L n, L <> 0 -> count_len h 264 n L = ex_dec h n L.
+Proof.
+  intros h L n HL. induction n as [|k IH]; [reflexivity|].
+  cbn [count_len ex_dec]. rewrite IH. f_equal.
+  destruct (N.eqb_spec L 0); [contradiction|]. cbn [negb]. rewrite andb_true_r. reflexivity.
+Qed.
+
+Lemma ex_dec_none : forall h L n, (forall i, hc_len (aget h i) <> L) -> ex_dec h n L = 0.
+Proof.
+  intros h L n H. induction n as [|k IH]; [reflexivity|].
+  cbn [ex_dec]. rewrite IH. specialize (H (264 + N.of_nat k)).
+  destruct (N.eqb_spec (hc_len (aget h (264 + N.of_nat k))) L); [contradiction|reflexivity].
+Qed.
+
+(* the two congruences used by the prefix-sum loops *)
+Lemma Ecnt_congr_low : forall h lh lc ex,
+  (forall i, i < 29 -> aget lh i = aget h (257 + i)) ->
+  rl_post_lit h lc ex ->
+  forall L, 1 <= L <= 15 -> (aget lc L + aget ex L) mod 65536 = Ecnt h lh L mod 65536.
+Proof.
+  intros h lh lc ex Hlh (Hok & Hlc & Hex & Hmod) L HL.
+  rewrite (Ecnt_alt h lh Hlh L) by lia. rewrite (Hlc L HL).
+  pose proof (count_len_split h L 264 22) as H1.
+  change (264 + 22)%nat with 286%nat in H1. change (N.of_nat 264) with 264 in H1.
+  rewrite H1. rewrite count_ex_dec by lia.
+  rewrite <- N.add_assoc. apply mod_add_congr; [lia|reflexivity|].
+  rewrite N.add_comm. apply Hmod. lia.
+Qed.
+
+Lemma Ecnt_congr_high : forall h lh lc ex,
+  (forall i, i < 29 -> aget lh i = aget h (257 + i)) ->
+  rl_post_lit h lc ex ->
+  forall L, 16 <= L -> aget ex L mod 65536 = Ecnt h lh L mod 65536.
+Proof.
+  intros h lh lc ex Hlh (Hok & Hlc & Hex & Hmod) L HL.
+  assert (Hno : forall i, hc_len (aget h i) <> L).
+  { intros i. destruct (Hok i) as [_ H15]. lia. }
+  rewrite (Ecnt_alt h lh Hlh L) by lia.
+  rewrite (count_len_none h 0 L 264 Hno). rewrite N.add_0_l.
+  rewrite <- (Hmod L) by lia. rewrite (ex_dec_none h L 22 Hno). rewrite N.add_0_r. reflexivity.
+Qed.
+
+(* ---------------------------------------------------------------- assembly *)
+Theorem setAndExpand_spec : forall d d' e,
+  setAndExpandLitLenHuffCode d = (d', e) ->
+  rl_post_lit (litAndDistHuff d) (litCount d) (litExpandCount d) ->
+  (e = ENone \/ e = EInvalidBlock) /\
+  (e = ENone -> litlen_sorted d') /\
+  clcShort d' = clcShort d /\ clcLong d' = clcLong d /\ distCount d' = distCount d.
+Proof.
+  intros d d' e H Hpost.
+  rewrite setAndExpand_eq in H.
+  set (h := litAndDistHuff d) in *. set (lc := litCount d) in *.
+  set (ex0 := litExpandCount d) in *.
+  set (lh := forN 0 29 (fun i t => aset t i (aget h (litSymbolsSize + i))) (lenHuffCodes d)) in *.
+  assert (Hlh : forall i, i < 29 -> aget lh i = aget h (257 + i)).
+  { intros i Hi.
+    pose proof (forN_aset_get (fun i => aget h (litSymbolsSize + i)) 0 29 (lenHuffCodes d) i
+                  ltac:(lia)) as Hg.
+    cbv beta in Hg. unfold lh. rewrite Hg.
+    replace ((0 <=? i) && (i <? 29)) with true by lia. reflexivity. }
+  set (E := Ecnt h lh).
+  pose proof (Ecnt_sum h lh) as Hsum. fold E in Hsum.
+  pose proof (Ecnt_congr_low h lh lc ex0 Hlh Hpost) as Hlow. fold E in Hlow.
+  pose proof (Ecnt_congr_high h lh lc ex0 Hlh Hpost) as Hhigh. fold E in Hhigh.
+  pose proof (ps_loop1_spec E Hsum lc ex0 (aset (aset (nextCode d) 0 0) 1 0) Hlow) as H1.
+  destruct (ps_loop1 lc (aset (aset ex0 0 0) 1 0) (aset (aset (nextCode d) 0 0) 1 0) (aget ex0 1))
+    as [[[ex1 nc1] ct1] ctmp1].
+  unfold ps1_inv in H1. destruct H1 as (Hct1 & Hctmp1 & Hlo1 & Hhi1).
+  assert (H15 : ps2_inv E ex0 15 (ex1, ct1, u32 (aget lc 15 + ctmp1))).
+  { unfold ps2_inv. split; [exact Hct1|]. split; [|split; assumption].
+    rewrite mod16_u32, Hctmp1. apply Hlow. lia. }
+  pose proof (ps_loop2_spec E Hsum ex0 ex1 ct1 _ Hhigh H15) as H2.
+  destruct (ps_loop2 ex1 ct1 (u32 (aget lc 15 + ctmp1))) as [[ex2 ct2] ctmp2].
+  unfold ps2_inv in H2. destruct H2 as (_ & _ & Hlo2 & _).
+  destruct (32768 <? u32 (aget nc1 15 + aget lc 15)) eqn:Emx.
+  - injection H as Hd He. subst d' e. cbn [clcShort clcLong distCount].
+    split; [right; reflexivity|]. split; [intros Hc; discriminate Hc|].
+    split; [reflexivity|]. split; reflexivity.
+  - cbv zeta in H.
+    set (huff1 := forN litSymbolsSize litLenElems (fun i t => aset t i 0) h) in *.
+    assert (Hh1 : forall j, aget huff1 j = if (257 <=? j) && (j <? 514) then 0 else aget h j).
+    { intros j. apply (forN_aset_get (fun _ => 0)). unfold litSymbolsSize, litLenElems. lia. }
+    set (lc' := forN 0 maxLitLenCount (fun i t => aset t i (aget ex2 i)) lc) in *.
+    assert (Hlc' : forall j, aget lc' j = if (0 <=? j) && (j <? 23) then aget ex2 j else aget lc j).
+    { intros j. apply (forN_aset_get (fun i => aget ex2 i)). unfold maxLitLenCount. lia. }
+    destruct Hpost as (Hok & _).
+    assert (HcntA : forall L, count_len huff1 0 257 L = count_len h 0 257 L).
+    { intros L. apply count_len_ext. intros i Hi. rewrite Hh1.
+      replace ((257 <=? i) && (i <? 514)) with false by lia. reflexivity. }
+    assert (Hc : calc_inv E huff1 257 (calcCodeForLit huff1 (codeList d) ex2 nc1)).
+    { apply (calc_spec E Hsum).
+      - intros i. rewrite Hh1. destruct ((257 <=? i) && (i <? 514)); [lia|apply Hok].
+      - intros i Hi. rewrite Hh1. destruct ((257 <=? i) && (i <? 514)); [|apply Hok].
+        change (hc_len 0) with 0. lia.
+      - intros L HL. apply Hlo2. lia.
+      - intros L HL. rewrite HcntA. unfold E, Ecnt. lia. }
+    destruct (calcCodeForLit huff1 (codeList d) ex2 nc1) as [[[[hf2 cl2] ex3] nc2] pan1].
+    unfold calc_inv in Hc. destruct Hc as (Hpan1 & Hpl & Hex3 & _). subst pan1.
+    change (N.to_nat 257) with 257%nat in Hpl, Hex3.
+    destruct (expand_spec E Hsum (fun L => count_len huff1 0 257 L) hf2 cl2 ex3 nc2 lh Hpl)
+      as (hf3 & cl3 & ex4 & nc3 & Heq & Hpl3).
+    { intros i Hi. rewrite (Hlh i Hi). apply Hok. }
+    { exact Hex3. }
+    { intros L HL. rewrite HcntA. unfold E, Ecnt. lia. }
+    rewrite Heq in H. cbn [orb] in H. injection H as Hd He. subst d' e.
+    cbn [clcShort clcLong distCount].
+    split; [left; reflexivity|]. split; [|split; [reflexivity|split; reflexivity]].
+    intros _. unfold litlen_sorted. cbn [litCount codeList litAndDistHuff].
+    assert (HlcS : forall L, L <= 22 -> aget lc' L = Soff E L).
+    { intros L HL. rewrite Hlc'. replace ((0 <=? L) && (L <? 23)) with true by lia.
+      apply Hlo2. exact HL. }
+    destruct Hpl3 as [H32 Hsl].
+    split; [rewrite HlcS by lia; apply Soff_0|].
+    split; [rewrite HlcS by lia; apply Soff_1|].
+    split; [intros L HL; rewrite !HlcS by lia; apply Soff_mono; lia|].
+    split; [rewrite HlcS by lia; exact Hsum|].
+    split; [exact H32|].
+    intros L k HL Hk. rewrite !HlcS in Hk by lia.
+    destruct (N.eq_dec L 0) as [HL0|HL0].
+    { subst L. change (0 + 1) with 1 in Hk. rewrite Soff_0, Soff_1 in Hk. lia. }
+    apply Hsl; [lia|]. rewrite Soff_succ in Hk by lia.
+    rewrite HcntA. unfold E in Hk at 3. unfold Ecnt in Hk. exact Hk.
+Qed.
+
+Print Assumptions setAndExpand_spec.
